@@ -103,7 +103,7 @@ static Verdict runC01(const Case &cs) {
     if (w.empty()) v.labels.insert("in:empty");
     if ((x.ft.nullable || x.ft.leftrec || x.ft.unit || x.ft.dupRhs) && w.size() >= 2) v.nontrivial = true;
     for (int la = 0; la < 3; la++) for (int one = 0; one < 2; one++) for (int cost = 0; cost < 2; cost++) for (int rec = 0; rec < 2; rec++) {
-      if (rec && !sent && errInit) { v.labels.insert("excluded:F21-error-initial-start-rule"); continue; }
+      if (rec && !sent && errInit) v.labels.insert("g:error-initial-start-rule(no implicit rule)");
       Binding *b = freshDefined(cs, v);
       if (!b) return v;
       Conf cf; cf.la = la; cf.one = one; cf.cost = cost; cf.rec = rec;
